@@ -3,7 +3,7 @@
 #   demo passes on the clean tree, fails with the change, and the repository's test suite still passes with it.
 # Writes /tmp/verify_<PROP>_<k>.log; on success copies the artefacts to /verif/seeded/<PROP>-<k>/
 set -u
-P=$1; K=$2; D=/tmp/mut_$P; W=/tmp/vw_${P}_$K; LOG=/tmp/verify_${P}_$K.log
+P=$1; K=$2; D=${MUTDIR:-/tmp/mut_$P}; W=/tmp/vw_${P}_$K; LOG=/tmp/verify_${P}_$K.log
 exec > $LOG 2>&1
 git -C /repo worktree remove --force $W 2>/dev/null
 git -C /repo worktree add --detach $W HEAD -q || exit 2
